@@ -1,5 +1,6 @@
 (* C17 — the bit-field aliases denote what their mnemonic says (UBFM semantics), for every source value; the operand
-   check of the extract forms is exact; the insert forms accept lsb + width > size (KNOWN FINDING, refuted theorem). *)
+   check of the extract AND insert forms is exact (refused exactly when the field does not fit the register: the insert
+   forms accepted lsb + width > size before /repo commit 638bd9f). *)
 From Coq Require Import ZArith Lia Bool List.
 From Verif Require Import Base.ZBits Codec.ImmProofs Codec.BitfieldModel.
 Local Open Scope Z_scope.
@@ -28,7 +29,7 @@ Proof.
   intros Hs Hl Hw. unfold encode_bitfield.
   destruct (Z.leb_spec size lsb); cbn [orb]; [lia|].
   destruct (Z.eqb_spec width 0); cbn [orb]; [lia|].
-  destruct (Z.ltb_spec size width); [lia|]. cbv zeta.
+  destruct (Z.ltb_spec (size - lsb) width); [lia|]. cbv zeta.
   destruct (Z.leb_spec size (lsb + width - 1)); lia.
 Qed.
 
@@ -43,40 +44,52 @@ Proof.
 Qed.
 
 (* ---------- insert forms: UBFIZ / SBFIZ / BFI / BFC ---------- *)
+(* accepted exactly when the inserted field fits the register *)
+Theorem bfi_spec size lsb width : size_ok size -> 0 <= lsb -> 0 <= width ->
+  match encode_bitfield Bfi size lsb width with
+  | Some (r, s) => 1 <= width <= size - lsb /\ r = (size - lsb) mod size /\ s = width - 1 /\ 0 <= r < size /\ 0 <= s < size /\
+                   (lsb = 0 \/ s < r)
+  | None => ~ (lsb < size /\ 1 <= width <= size - lsb)
+  end.
+Proof.
+  intros Hs Hl Hw. unfold encode_bitfield.
+  destruct (Z.leb_spec size lsb); cbn [orb]; [lia|].
+  destruct (Z.eqb_spec width 0); cbn [orb]; [lia|].
+  destruct (Z.ltb_spec (size - lsb) width); [lia|].
+  rewrite neg32_and_spec by (try exact Hs; lia).
+  assert (Hsz : 0 < size) by (destruct Hs; lia).
+  destruct (Z.eq_dec lsb 0) as [->|Hne].
+  - rewrite Z.sub_0_r, Z.mod_same by lia. repeat split; lia.
+  - rewrite (Z.mod_small (size - lsb)) by lia. repeat split; try lia.
+Qed.
+
+Theorem bfi_refused_iff size lsb width : size_ok size -> 0 <= lsb -> 0 <= width ->
+  (encode_bitfield Bfi size lsb width = None <-> ~ (lsb < size /\ 1 <= width <= size - lsb)).
+Proof.
+  intros Hs Hl Hw. pose proof (bfi_spec size lsb width Hs Hl Hw) as H.
+  destruct (encode_bitfield Bfi size lsb width) as [[r s]|]; split; intros H'; try discriminate; try reflexivity; try exact H.
+  exfalso. apply H'. lia.
+Qed.
+
 Theorem ubfiz_correct size lsb width r s src : size_ok size -> 0 <= lsb -> 0 <= width -> 0 <= src < 2 ^ size ->
-  encode_bitfield Bfi size lsb width = Some (r, s) -> width <= size - lsb ->
+  encode_bitfield Bfi size lsb width = Some (r, s) ->
   ubfm_sem size r s src = (src mod 2 ^ width) * 2 ^ lsb /\ 0 <= r < size /\ 0 <= s < size.
 Proof.
-  intros Hs Hl Hw Hsrc He Hfit. unfold encode_bitfield in He.
-  destruct (Z.leb_spec size lsb); cbn [orb] in He; [discriminate|].
-  destruct (Z.eqb_spec width 0); cbn [orb] in He; [discriminate|].
-  destruct (Z.ltb_spec size width); [discriminate|].
-  injection He as <- <-. rewrite neg32_and_spec by (try exact Hs; lia).
+  intros Hs Hl Hw Hsrc He. pose proof (bfi_spec size lsb width Hs Hl Hw) as H. rewrite He in H.
+  destruct H as (Hwd & -> & -> & Hr & Hss & Hord).
   assert (Hsz : 0 < size) by (destruct Hs; lia).
+  split; [|split; assumption].
   unfold ubfm_sem.
   destruct (Z.eq_dec lsb 0) as [->|Hne].
   - rewrite Z.sub_0_r, Z.mod_same by lia.
     replace (0 <=? width - 1) with true by (symmetry; apply Z.leb_le; lia).
-    change (2 ^ 0) with 1. rewrite Z.div_1_r, Z.mul_1_r. replace (width - 1 - 0 + 1) with width by lia.
-    repeat split; lia.
-  - rewrite (Z.mod_small (size - lsb)) by lia.
+    change (2 ^ 0) with 1. rewrite Z.div_1_r, Z.mul_1_r. replace (width - 1 - 0 + 1) with width by lia. reflexivity.
+  - rewrite (Z.mod_small (size - lsb)) in * by lia.
     replace (size - lsb <=? width - 1) with false by (symmetry; apply Z.leb_gt; lia).
     replace (width - 1 + 1) with width by lia. replace (size - (size - lsb)) with lsb by lia.
-    split; [|lia].
     apply Z.mod_small. pose proof (Z.mod_pos_bound src (2 ^ width) (pow2_pos width Hw)) as Hb.
     pose proof (mul_pow2_bound (src mod 2 ^ width) width lsb Hl Hw Hb) as Hm.
     pose proof (pow2_le (width + lsb) size ltac:(lia)). lia.
-Qed.
-
-(* KNOWN FINDING (also reported by C02 against llvm-mc): the insert forms test width <= size instead of
-   width <= size - lsb; the accepted operands then denote a different operation *)
-Theorem bfi_width_check_refuted :
-  exists size lsb width r s src, size_ok size /\ 0 <= src < 2 ^ size /\
-    encode_bitfield Bfi size lsb width = Some (r, s) /\ size - lsb < width /\
-    ubfm_sem size r s src <> ((src mod 2 ^ width) * 2 ^ lsb) mod 2 ^ size.
-Proof.
-  exists 32, 1, 32, 31, 31, 1. split; [left; reflexivity|]. split; [split; [discriminate|reflexivity]|].
-  split; [vm_compute; reflexivity|]. split; [reflexivity|]. vm_compute. discriminate.
 Qed.
 
 (* ---------- shifts by immediate ---------- *)
